@@ -74,6 +74,12 @@ def gen_files(rng, syms, d0):
             f = rng.choice([3.0, 1 / 3.0, 5.0])
             for j in range(k, len(rows) if rng.random() < 0.4 else k + 1):
                 rows[j] = [rows[j][0]] + [None if x is None else round(x * f, 4) for x in rows[j][1:]]
+        if len(rows) >= 3 and rng.random() < 0.15:
+            # a flat / pegged instrument: a later bar identical in every column to an earlier one (the dates differ)
+            rows.sort(key=lambda r: r[0])
+            i0 = rng.randrange(0, len(rows) - 1)
+            j0 = rng.randrange(i0 + 1, len(rows))
+            rows[j0] = [rows[j0][0]] + list(rows[i0][1:])
         if rows and rng.random() < 0.25:
             # a calendar that starts before the listing: leading rows whose price cells are all empty
             first = dtm.date.fromisoformat(min(r[0] for r in rows))
